@@ -113,8 +113,9 @@ def audit_sources():
 
 
 def print_axioms(module, theorems):
-    src = "import %s\n" % module + "\n".join("#print axioms %s" % t for t in theorems) + "\n"
-    rc, out = lean_eval(src, "axioms_" + module.replace(".", "_"))
+    mods = [module] if isinstance(module, str) else list(module)
+    src = "".join("import %s\n" % m_ for m_ in mods) + "\n".join("#print axioms %s" % t for t in theorems) + "\n"
+    rc, out = lean_eval(src, "axioms_" + mods[-1].replace(".", "_"))
     res = {}
     cur = None
     for line in out.splitlines():
